@@ -306,7 +306,10 @@ func (x *Exec) guardAccess(st *State, p *PtrVal, write bool, pos token.Pos) {
 			}
 			return
 		}
-		if x.env.con.Atomic[key] {
+		if x.env.con.Atomic[key] || x.env.con.Atomic[sn+".*"] {
+			if x.inAtomic > 0 {
+				return // the access is the sync/atomic operation itself
+			}
 			x.assert(st, "guard", what+": plain access to a field that is otherwise accessed with sync/atomic", tFalse, pos, nil)
 			return
 		}
